@@ -7,9 +7,14 @@
    Statements only; proofs live in Argv/ArgvProofs.v and Argv/ArgvCmdLineProofs.v.
    Models: Argv/ArgvDefs.v (parsec/utils/argv.c), Argv/ArgvCmdLineDefs.v
    (parsec/utils/cmd_line.c).  [fields]/[intercalate] are the mathematical
-   split (one field per delimiter, plus one) and join. *)
+   split (one field per delimiter, plus one) and join.
+   The models follow the code after the repairs 37250ca (split_with_empty) and
+   6bc250b (cmd_line double free), both found by this property; the code before
+   them lives in Argv/ArgvPrefixDefs.v and is refuted in the two
+   [..._prefix_refuted] theorems. *)
 From Coq Require Import Ascii.
 From PV Require Import Base.Tac Argv.ArgvDefs Argv.ArgvProofs Argv.ArgvCmdLineDefs Argv.ArgvCmdLineProofs.
+From PV Require Import Argv.ArgvPrefixDefs Argv.ArgvPrefixProofs.
 
 (* ---- split, then join ---------------------------------------------------- *)
 
@@ -29,22 +34,13 @@ Theorem C39_split_join_roundtrip_iff : forall s d,
 Proof. exact join_split_roundtrip_clean. Qed.
 Print Assumptions C39_split_join_roundtrip_iff.
 
-(* the literal statement for parsec_argv_split_with_empty (no field is supposed
-   to be dropped, so the join should give the string back) is FALSE of the code:
-   "a," comes back as "a" *)
-Theorem C39_split_with_empty_join_refuted :
-  exists s d, argv_join (argv_split_with_empty s d) d <> s.
-Proof. exact P_split_with_empty_join_refuted. Qed.
-Print Assumptions C39_split_with_empty_join_refuted.
-
-(* what it does instead, exactly: one trailing delimiter is lost and nothing
-   else; the round trip holds iff the string does not end with the delimiter *)
-Theorem C39_split_with_empty_join_exact : forall s d,
-  vec_of (argv_split_with_empty s d) = strip_last_empty (fields d s) /\
-  (forall t, s = t ++ [d] -> argv_join (argv_split_with_empty s d) d = t) /\
-  (argv_join (argv_split_with_empty s d) d = s <-> ~ ends_with d s).
-Proof. exact P_split_with_empty_join_exact. Qed.
-Print Assumptions C39_split_with_empty_join_exact.
+(* parsec_argv_split_with_empty drops nothing: the result is the list of all
+   fields (NULL for the empty string) and the join gives the string back *)
+Theorem C39_split_with_empty_join : forall s d,
+  vec_of (argv_split_with_empty s d) = match s with [] => [] | _ :: _ => fields d s end /\
+  argv_join (argv_split_with_empty s d) d = s.
+Proof. exact P_split_with_empty_join. Qed.
+Print Assumptions C39_split_with_empty_join.
 
 (* ---- join, then split ---------------------------------------------------- *)
 Theorem C39_split_after_join : forall v d,
@@ -54,10 +50,11 @@ Theorem C39_split_after_join : forall v d,
 Proof. exact P_split_after_join. Qed.
 Print Assumptions C39_split_after_join.
 
-(* with empty tokens allowed: the vector comes back iff its last token is not empty *)
+(* with empty tokens allowed: every vector comes back except [""] (its join is the
+   empty string, which has no field) *)
 Theorem C39_split_with_empty_after_join_iff : forall v d,
   Forall (fun t => ~ In d t) v ->
-  (vec_of (argv_split_with_empty (argv_join (Some v) d) d) = v <-> (v = [] \/ last v [] <> [])).
+  (vec_of (argv_split_with_empty (argv_join (Some v) d) d) = v <-> v <> [[]]).
 Proof. exact split_with_empty_join_iff. Qed.
 Print Assumptions C39_split_with_empty_after_join_iff.
 
@@ -160,16 +157,20 @@ Print Assumptions C39_append_unique.
 
 (* ---- command line ---------------------------------------------------------- *)
 
-(* every command line made of option tokens (-name / --name naming a declared
-   option) each followed by its parameters, then the end, or "--" and anything,
-   or a token that does not start with '-' and anything: the parser reports
-   exactly these options with these parameters, in order, and that tail; it
-   succeeds unless the tail starts without "--" and unknown tokens are not ignored *)
-Theorem C39_parse_reports_options_and_tail : forall opts ign prog occs e,
-  Forall (wf_occ opts) occs -> wf_end e ->
-  cmd_parse opts ign (Some (prog :: render occs ++ render_end e)) =
-    mk_parsed (rc_of ign e) (reported occs) (tail_of e) (prog :: render occs ++ render_end e) false false.
-Proof. exact parse_wf. Qed.
+(* every command line made of options written directly (-name / --name naming a
+   declared option, followed by its parameters) or as a group of short options
+   (-xyz, each letter a declared option, followed by the parameters of x, then
+   of y, ...), then the end, or "--" and anything, or a token that does not
+   start with '-' and anything: the parser reports exactly these options with
+   these parameters, in order (a group counts as its options one by one), and
+   that tail; it succeeds unless the tail starts without "--" and unknown
+   tokens are not ignored.  [p_argv] is the vector with the groups expanded. *)
+Theorem C39_parse_reports_options_and_tail : forall opts ign prog its e,
+  Forall (wf_item opts) its -> wf_end e ->
+  cmd_parse opts ign (Some (prog :: render_items its ++ render_end e)) =
+    mk_parsed (rc_of ign e) (reported (flatten its)) (tail_of e)
+              (prog :: render (flatten its) ++ render_end e) false.
+Proof. exact parse_items_wf. Qed.
 Print Assumptions C39_parse_reports_options_and_tail.
 
 Theorem C39_parse_queries : forall opts p occs name,
@@ -188,29 +189,45 @@ Theorem C39_parse_queries : forall opts p occs name,
 Proof. exact P_parse_queries. Qed.
 Print Assumptions C39_parse_queries.
 
-(* "reports each declared option with its parameters" is FALSE of the code for
-   an option whose second or later parameter is missing after a group of short
-   options (-ab x with a taking two parameters): the error path frees
-   param->clp_argv and then releases param, whose destructor frees it again *)
-Theorem C39_parse_missing_parameter_double_free_refuted :
-  exists opts ign av, p_ub (cmd_parse opts ign (Some av)) = true.
-Proof. exact P_double_free_refuted. Qed.
-Print Assumptions C39_parse_missing_parameter_double_free_refuted.
+(* ---- the code before its repair (findings of this property) ----------------- *)
+
+(* before 37250ca the statement was false for parsec_argv_split_with_empty:
+   "a," came back as "a" (the repaired function gives "a," back) *)
+Theorem C39_split_with_empty_join_prefix_refuted :
+  exists s d,
+    argv_join (Prefix.argv_split_with_empty s d) d <> s /\
+    argv_join (argv_split_with_empty s d) d = s.
+Proof. exact P_split_with_empty_join_prefix_refuted. Qed.
+Print Assumptions C39_split_with_empty_join_prefix_refuted.
+
+(* before 6bc250b "reports each declared option with its parameters" was false
+   for an option whose second or later parameter is missing after a group of
+   short options (-ab x with a taking two parameters): the error path freed
+   param->clp_argv and then released param, whose destructor freed it again;
+   the repaired parser returns PARSEC_ERROR and reports nothing *)
+Theorem C39_parse_missing_parameter_double_free_prefix_refuted :
+  exists opts ign av,
+    Prefix.p_ub (Prefix.cmd_parse opts ign (Some av)) = true /\
+    p_rc (cmd_parse opts ign (Some av)) = RC_ERROR /\
+    p_params (cmd_parse opts ign (Some av)) = [].
+Proof. exact P_parse_double_free_prefix_refuted. Qed.
+Print Assumptions C39_parse_missing_parameter_double_free_prefix_refuted.
 
 (* ---- non-vacuity ----------------------------------------------------------- *)
 Local Open Scope char_scope.
 Example C39_example :
-  (* ",a,,b," : the four empty fields are dropped *)
   argv_split [","; "a"; ","; ","; "b"; ","] "," = Some [["a"]; ["b"]] /\
-  argv_split_with_empty ["a"; ","; "b"; ","; ","] "," = Some [["a"]; ["b"]; []] /\
+  argv_split_with_empty ["a"; ","; "b"; ","; ","] "," = Some [["a"]; ["b"]; []; []] /\
   argv_join (Some [["a"]; []; ["b"]]) "," = ["a"; ","; ","; "b"] /\
   argv_insert (Some [["a"]; ["b"]; ["c"]]) 1 (Some [["x"]; ["y"]]) =
     (RC_SUCCESS, Some [["a"]; ["x"]; ["y"]; ["b"]; ["c"]]) /\
   argv_delete 5 (Some [["a"]; ["x"]; ["y"]; ["b"]; ["c"]]) 1 2 = (RC_SUCCESS, 3%Z, Some [["a"]; ["b"]; ["c"]]) /\
-  (* prog -a 1 2 --beta -- t : a well-formed command line in the sense of the theorem *)
+  (* p --beta -ba 1 2 -- t : one option written directly, then a group of two *)
   let opts := [mk_opt "a" None (Some ["a"; "l"]) 2; mk_opt "b" None (Some ["b"; "e"; "t"; "a"]) 0] in
-  let occs := [mk_occ ["-"; "a"] 0 [["1"]; ["2"]]; mk_occ ["-"; "-"; "b"; "e"; "t"; "a"] 1 []] in
-  Forall (wf_occ opts) occs /\ wf_end (E_dashdash [["t"]]) /\
-  p_params (cmd_parse opts false (Some (["p"] :: render occs ++ render_end (E_dashdash [["t"]])))) =
-    [(0, [["1"]; ["2"]]); (1, [])].
+  let its := [I_direct (mk_occ ["-"; "-"; "b"; "e"; "t"; "a"] 1 []);
+              I_group [mk_sopt "b" 1 []; mk_sopt "a" 0 [["1"]; ["2"]]]] in
+  Forall (wf_item opts) its /\ wf_end (E_dashdash [["t"]]) /\
+  render_items its = [["-"; "-"; "b"; "e"; "t"; "a"]; ["-"; "b"; "a"]; ["1"]; ["2"]] /\
+  p_params (cmd_parse opts false (Some (["p"] :: render_items its ++ render_end (E_dashdash [["t"]])))) =
+    [(1, []); (1, []); (0, [["1"]; ["2"]])].
 Proof. exact P_example. Qed.
